@@ -1,12 +1,63 @@
-import ALV.Model.C16
-import ALV.Spec.C16
+/-
+  C16 — property theorems (Streamix and ControlStream).  Only statements of the property,
+  non-vacuity examples and the audit live here; helper lemmas are in `ALV.Lemmas.C16*`.
+-/
+import ALV.Lemmas.C16
+import ALV.Lemmas.C16Inv
+import ALV.Lemmas.C16Ctl
 import ALV.Common.Audit
 
 namespace ALV.Props.C16
 open ALV.C16
 variable {α β : Type}
 
-theorem placeholder : (1 : Nat) = 1 := rfl
+/-- **C16.1** (central refinement).  For every history — any interleaving of `add` (any rational
+delta, any finite data), `next` and assignments to `keep`, from a fresh Streamix with any `keep`
+and any zero value, over any item type with a `+` — the generator model shows the caller exactly
+what the specification says: every `add` is accepted / rejected alike, every `next` delivers
+`zero + Σ` of the items due at that sample of the events whose start time
+`max(⌈T_i − 1/2⌉, moment added)` has been reached, starts the same number of events at that
+sample, and ends (StopIteration) at the same `next`; after the end nothing revives it. -/
+theorem streamix_model_eq_spec [Add α] (zero : α) (keep : Bool) (ops : List (Op α)) :
+    (mrun zero (MState.init keep) ops).2 = (srun zero (SState.init keep) ops).2 :=
+  (run_sim zero ops _ _ (sim_init keep)).1
+
+/-- **C16.2** (the invariant behind "no drift").  After any history
+`count = (samples delivered) + 1/2 − (cumulative time of the events started so far)`, the started
+time being the accepted time minus what still waits in `_not_playing`. -/
+theorem count_invariant [Add α] (zero : α) (keep : Bool) (ops : List (Op α)) :
+    (mrun zero (MState.init keep) ops).1.count =
+      (delivered (mrun zero (MState.init keep) ops).2 : Rat) + 1/2 -
+        (acceptedTime ops - qsum (mrun zero (MState.init keep) ops).1.notPlaying) := by
+  have h0 : CountInv (MState.init keep : MState α) 0 0 := by
+    simp [CountInv, MState.init, qsum]
+  have := countInv_run zero ops _ 0 0 h0
+  simpa [CountInv] using this
+
+/-- **C16.3** a negative delta raises ValueError and leaves the mixer as it was. -/
+theorem negative_delta_rejected [Add α] (zero : α) (s : MState α) (d : Rat) (x : List α) (hd : d < 0) :
+    mstep zero s (.add d x) = (s, .valueError) := by
+  simp [mstep, madd, hd]
+
+/-- … so a rejected `add` anywhere in a history changes no other observation and no state. -/
+theorem rejected_add_is_noop [Add α] (zero : α) (s : MState α) (d : Rat) (x : List α) (hd : d < 0)
+    (ops : List (Op α)) :
+    mrun zero s (.add d x :: ops) = ((mrun zero s ops).1, .valueError :: (mrun zero s ops).2) := by
+  simp [mrun, mstep, madd, hd]
+
+/-- **C16.4** ControlStream: for any interleaving of assignments and reads, every read yields
+the value most recently assigned before it (the constructor's value if none). -/
+theorem control_last_value (init : β) (ops : List (COp β)) : crun init ops = cspec init ops :=
+  crun_eq_cspec ops init
+
+/-! non-vacuity: the statements are about non-trivial inputs -/
+
+-- the docstring example: [-1, 1, 4, 1, -3, -5, -7, -1], then the end
+example : (mrun (0 : Int) (MState.init false)
+    [.add 0 [-1, 1, 3, 2], .add 2 [4, 4, 4], .add 0 [-3, -5, -7, -5, -7, -1],
+     .next, .next, .next, .next, .next, .next, .next, .next, .next]).2
+    = [.ok, .ok, .ok, .out (-1) 1, .out 1 0, .out 4 2, .out 1 0, .out (-3) 0, .out (-5) 0, .out (-7) 0,
+       .out (-1) 0, .stop] := by decide +kernel
 
 end ALV.Props.C16
 
